@@ -94,6 +94,18 @@ Proof.
   destruct (g x) as [o1 x1]. destruct o1; try (apply IH; discriminate); try (cbn; discriminate). apply IH. exact Ho.
 Qed.
 
+Lemma evalxs_len : forall es x, len (snd (evalxs es x)) = len x.
+Proof.
+  induction es as [|e r IH]; intro x; cbn [evalxs]; [reflexivity|]. unfold evalx.
+  specialize (IH (emit (EvR e) x)). destruct (evalxs r (emit (EvR e) x)) as [vs x2]. cbn [snd] in *. rewrite IH. apply emit_len.
+Qed.
+
+Lemma emit_vals_len : forall vs x, len (emit_vals vs x) = len x.
+Proof.
+  induction vs as [|v r IH]; intro x; unfold emit_vals; cbn [fold_left]; [reflexivity|].
+  fold (emit_vals r (emit (EvV v) x)). rewrite IH. apply emit_len.
+Qed.
+
 Definition defer_clo_ok (s:stmt) : Prop :=
   match s with
   | Defer d body => forall lp, clo_ok lp (fun y => rstmts lp body [] None (emit (EvU d) y))
@@ -154,12 +166,14 @@ Proof.
     + destruct (cond c x) as [[v x1]|] eqn:Ec; [|apply okr_plain; [lia | discriminate | discriminate]].
       pose proof (cond_len _ _ _ _ Ec). repeat split; cbn [fst snd]; [lia | discriminate | intros; lia].
     + repeat split; cbn [fst snd]; [lia | discriminate | intros b _ H; exfalso; apply H; reflexivity].
-  - (* Return *) intro e. split; [|exact I]. intros. cbn [rstmt]. unfold evalx. apply okr_plain; [rewrite emit_len; lia | discriminate | discriminate].
+  - (* Return *) intro e. split; [|exact I]. intros lp x. cbn [rstmt].
+    pose proof (evalxs_len e x) as Hl. destruct (evalxs e x) as [vs x1]. cbn [snd] in Hl.
+    apply okr_plain; [lia | discriminate | discriminate].
   - (* ReturnVoid *) split; [|exact I]. intros. cbn [rstmt]. apply okr_plain; [lia | discriminate | discriminate].
   - (* FnCall *) intros void b IH. split; [|exact I]. intros lp x. cbn [rstmt].
     destruct (IH None [] None x (Forall_nil _)) as [(R1 & R2 & _) _].
     destruct (rstmts None b [] None x) as [o x1]. unfold call_result. cbn [fst snd] in *.
-    destruct o; try (destruct void; (apply okr_plain; [try rewrite emit_len; exact R1 | discriminate | discriminate]));
+    destruct o; try (destruct void; (apply okr_plain; [try rewrite emit_len; try rewrite emit_vals_len; exact R1 | discriminate | discriminate]));
       try (apply okr_plain; [exact R1 | discriminate | discriminate]).
     exfalso. apply R2. reflexivity.
   - (* BNil *) intros lp ds fin x Hds. cbn [rstmts]. destruct fin as [c|].
